@@ -398,13 +398,33 @@ func RenderGenBank(r *fw.Rng, a Annotation, translate func(Feature) string) stri
 			sb.WriteString(fmt.Sprintf("     gene            %d..%d\n", lo, hi))
 			sb.WriteString(fmt.Sprintf("                     /gene=\"%s\"\n", f.Name))
 		}
-		sb.WriteString(fmt.Sprintf("     CDS             %s\n", loc))
-		sb.WriteString(fmt.Sprintf("                     /gene=\"%s\"\n", f.Name))
-		if r.Chance(0.5) {
-			sb.WriteString("                     /note=\"synthetic feature; two words\"\n")
+		if r.Chance(0.2) {
+			// another feature kind in between, with its own /gene qualifier
+			lo, hi := f.Bounds()
+			kind := []string{"mat_peptide", "misc_feature", "5'UTR", "stem_loop"}[r.Intn(4)]
+			sb.WriteString(fmt.Sprintf("     %-15s %d..%d\n", kind, lo, hi))
+			sb.WriteString(fmt.Sprintf("                     /gene=\"%s\"\n", f.Name))
+			sb.WriteString("                     /product=\"not a CDS\"\n")
 		}
-		sb.WriteString(fmt.Sprintf("                     /codon_start=%d\n", f.CodonStart))
-		sb.WriteString(fmt.Sprintf("                     /product=\"%s protein\"\n", f.Name))
+		sb.WriteString(fmt.Sprintf("     CDS             %s\n", loc))
+		// qualifiers in varying order, with the ones gofasta does not use in between
+		quals := []string{fmt.Sprintf("/gene=\"%s\"", f.Name), fmt.Sprintf("/codon_start=%d", f.CodonStart), fmt.Sprintf("/product=\"%s protein\"", f.Name)}
+		for _, extra := range []string{"/note=\"synthetic feature; two words\"", "/locus_tag=\"SYN_" + f.ID + "\"", "/db_xref=\"GeneID:43740578\"", "/protein_id=\"QHD43415.1\"", "/ribosomal_slippage", "/transl_table=1"} {
+			if r.Chance(0.25) {
+				quals = append(quals, extra)
+			}
+		}
+		if r.Chance(0.5) {
+			p := r.Perm(len(quals))
+			sh := make([]string, len(quals))
+			for i, j := range p {
+				sh[i] = quals[j]
+			}
+			quals = sh
+		}
+		for _, q := range quals {
+			sb.WriteString("                     " + q + "\n")
+		}
 		prot := translate(f)
 		prot = strings.TrimSuffix(prot, "*")
 		text := "/translation=\"" + prot + "\""
@@ -499,7 +519,26 @@ func RenderGFFSeq(r *fw.Rng, a Annotation, withFasta bool, fastaSeq string) stri
 				typ = "mature_protein_region_of_CDS"
 				phase = "."
 			}
-			sb.WriteString(fmt.Sprintf("%s\tsynthetic\t%s\t%d\t%d\t.\t%s\t%s\t%s\n", a.RefName, typ, s[0], s[1], strand, phase, attrs))
+			if r.Chance(0.3) {
+				// attributes gofasta does not use, before and/or after the ones it does
+				extra := []string{"gbkey=CDS", "product=" + typ + " product%2C escaped", "Dbxref=GeneID:43740578,UniProt:P0DTC2", "Note=two words", "protein_id=QHD43415.1"}
+				e := extra[r.Intn(len(extra))]
+				if r.Chance(0.5) {
+					attrs = attrs + ";" + e
+				} else if !strings.HasPrefix(attrs, "Parent=") || true {
+					attrs = e + ";" + attrs
+				}
+			}
+			src, score := "synthetic", "."
+			if r.Chance(0.2) {
+				src, score = []string{"RefSeq", "GenBank", "."}[r.Intn(3)], []string{".", "0.5", "100"}[r.Intn(3)]
+			}
+			sb.WriteString(fmt.Sprintf("%s\t%s\t%s\t%d\t%d\t%s\t%s\t%s\t%s\n", a.RefName, src, typ, s[0], s[1], score, strand, phase, attrs))
+		}
+		if r.Chance(0.15) {
+			lo, hi := f.Bounds()
+			kind := []string{"five_prime_UTR", "stem_loop", "region", "exon"}[r.Intn(4)]
+			sb.WriteString(fmt.Sprintf("%s\tsynthetic\t%s\t%d\t%d\t.\t%s\t.\tID=other-%s;Name=%s\n", a.RefName, kind, lo, hi, strand, f.ID, "other_"+f.ID))
 		}
 		if r.Chance(0.2) {
 			lo, hi := f.Bounds()
